@@ -584,8 +584,12 @@ func (c *pcCtx) call(x *ast.CallExpr) (pre []string, code string, mon bool) {
 			}
 			return pre, "(" + strings.TrimSpace(c.refFn(fn)+" "+strings.Join(as, " ")) + ")", false
 		}
-		if fn.inout {
-			pgFail("%s writes its receiver: only supported as a statement", fn.key)
+		if fn.inout { // the receiver is bound back, the (single) result is the value
+			if sig.Results().Len() != 1 {
+				pgFail("%s writes its receiver and has %d results: only supported as a statement", fn.key, sig.Results().Len())
+			}
+			r := c.inoutCall(x, fn, recv, nil, &pre)
+			return pre, r[0], false
 		}
 		c.fn.deps = append(c.fn.deps, fn)
 		var as []string
